@@ -45,6 +45,16 @@ const (
 	WriteCoilValueOff uint16 = 0
 )
 
+// quantity limits of the Modbus application protocol (V1.1b3, section 6)
+// and the highest valid address
+const (
+	maxReadBits  = 2000
+	maxReadRegs  = 125
+	maxWriteBits = 1968
+	maxWriteRegs = 123
+	maxAddress   = 0xffff
+)
+
 // minRequestLen is the minimum number of PDU bytes for a request with
 // the given function code (not including slave address or checksum,
 // which are part of the ADU).
